@@ -18,7 +18,14 @@
             0  path raw, error text with only `"` replaced        1  whole message through escape_json_string
       cli_help_mode : N     0 msg.replace('"', "\\\"")            1 escape_json_string(msg)
 
-Both fail loudly (GenError) when the function they read has been reshaped.
+  gen_classify()  runtime/src/json/json_read.rs + json_read_stream.rs (jtoken_to_runtime_object, the
+      object arm)  ->  theories/Gen/ClassifyGen.v
+      std_get_keys : list (list N)      the literals of `obj.get("..")`, in source order (= priority order
+                                        of the serde loader's key tests, attribute look-ups included)
+      stream_prop_keys : list (list N)  the literals of `prop == ".."`, in source order (the streaming
+                                        loader tests only the FIRST key of the object)
+
+All fail loudly (GenError) when the function they read has been reshaped.
 """
 import re
 import vlib
@@ -106,6 +113,26 @@ def strip_rust_comments(src):
     return "".join(out)
 
 
+def fn_body_lit(src, name):
+    """like gen_tables.fn_body, but braces inside string / char literals do not count"""
+    m = re.search(r"fn\s+" + re.escape(name) + r"\b[^{;]*\{", src)
+    if not m:
+        raise GenError(f"function {name} not found")
+    masked = list(src)
+    for k, a, b, _ in rust_scan(src):
+        if k in ("char", "str"):
+            for i in range(a, b):
+                masked[i] = " "
+    i, depth = m.end(), 1
+    while i < len(src) and depth:
+        if masked[i] == "{":
+            depth += 1
+        elif masked[i] == "}":
+            depth -= 1
+        i += 1
+    return src[m.end():i - 1]
+
+
 def match_arms(body, scrutinee):
     """Arms of the first `match <scrutinee> {` in body: list of (pattern, expr) source strings."""
     m = re.search(r"match\s+" + re.escape(scrutinee) + r"\s*\{", body)
@@ -180,7 +207,7 @@ def squash(s):
 
 def gen_tok():
     src = strip_rust_comments(vlib.repo_file("runtime/src/json/json_tokenizer.rs"))
-    body = fn_body(src, "read_string")
+    body = fn_body_lit(src, "read_string")
     sq = squash(body)
     # the loop skeleton the model mirrors
     for need in ["self.expect('\"')?;", "self.skip_whitespaces=false;", "whileletOk(c)=self.read(){",
@@ -262,7 +289,7 @@ def gen_cli():
     raw = vlib.repo_file("rinklecate/src/player.rs")
     src = strip_rust_comments(raw)
     # --- escape_json_string
-    body = fn_body(src, "escape_json_string")
+    body = fn_body_lit(src, "escape_json_string")
     sq = squash(body)
     for need in ["forcins.chars(){", "matchc{"]:
         if need not in sq:
@@ -340,3 +367,38 @@ def gen_cli():
              "cli.help_mode": help_mode, "cli.json_formats": ["{}".join(f) for f in formats],
              "cli.join_seps": seps}
     return write_if_changed("theories/Gen/CliGen.v", out), facts
+
+
+# ----------------------------------------------------------------- object classification
+def gen_classify():
+    std = strip_rust_comments(vlib.repo_file("runtime/src/json/json_read.rs"))
+    stream = strip_rust_comments(vlib.repo_file("runtime/src/json/json_read_stream.rs"))
+    b1 = fn_body_lit(std, "jtoken_to_runtime_object")
+    b2 = fn_body_lit(stream, "jtoken_to_runtime_object")
+    if "serde_json::Value::Object(obj)" not in b1:
+        raise GenError("json_read.rs: object arm of jtoken_to_runtime_object not found")
+    b1 = b1[b1.index("serde_json::Value::Object(obj)"):]
+    if "JsonValue::Object" not in b2 or "let prop = tok.read_obj_key()?;" not in b2:
+        raise GenError("json_read_stream.rs: object arm of jtoken_to_runtime_object not found")
+    b2 = b2[b2.index("JsonValue::Object"):]
+
+    def lits_after(body, pat):
+        out = []
+        for m in re.finditer(pat, body):
+            toks = list(rust_scan(body[m.end():m.end() + 80]))
+            if not toks or toks[0][0] != "str" or toks[0][1] != 0:
+                raise GenError("unrecognised key test near: " + body[m.start():m.start() + 60])
+            out.append(toks[0][3])
+        return out
+    k1 = lits_after(b1, r"\bobj\.get\(\s*")
+    k2 = lits_after(b2, r"\bprop\s*==\s*")
+    if len(k1) < 10 or len(k2) < 10:
+        raise GenError("object classification: too few key tests found (%d, %d)" % (len(k1), len(k2)))
+    # every other way of looking at the keys would escape the table
+    for body, what in ((b1, "json_read.rs"), (b2, "json_read_stream.rs")):
+        if re.search(r"\.contains_key\(|\.keys\(\)|match\s+prop\b", body):
+            raise GenError(what + ": keys are inspected in a way the table does not capture")
+    out = HEAD.format(src="runtime/src/json/json_read.rs, json_read_stream.rs::jtoken_to_runtime_object")
+    out += "Definition std_get_keys : list (list N) :=\n  [" + ";\n   ".join(nlist(k) for k in k1) + "].\n"
+    out += "Definition stream_prop_keys : list (list N) :=\n  [" + ";\n   ".join(nlist(k) for k in k2) + "].\n"
+    return write_if_changed("theories/Gen/ClassifyGen.v", out), {"classify.std": k1, "classify.stream": k2}
